@@ -391,6 +391,7 @@ func judge(rec *Rec) *verdict {
 	// ---------------------------------------------------------------- coverage of a task by a collector
 	type cov struct {
 		ge1, le1   bool
+		ownOnly    bool
 		k          int
 		lateLink   string
 		overlapAdd bool
@@ -404,7 +405,8 @@ func judge(rec *Rec) *verdict {
 		if e < t.addCall {
 			return c
 		}
-		c.ge1, c.le1 = true, true
+		c.ge1, c.le1, c.ownOnly = true, true, true
+		leaf := strings.TrimPrefix(chain[0], "lc:")
 		reest := false
 		for _, lk := range chain {
 			l := links[lk]
@@ -416,6 +418,9 @@ func judge(rec *Rec) *verdict {
 				if es.ret == 0 || es.ret > t.addCall {
 					c.k++
 					c.lateLink = lk
+					if lk != "lc:"+leaf && lk != "conn:"+leaf {
+						c.ownOnly = false
+					}
 					if i > 0 {
 						reest = true
 					}
@@ -448,7 +453,10 @@ func judge(rec *Rec) *verdict {
 				c.ge1 = false
 			}
 		}
-		if c.k > 1 || (c.k == 1 && reest) {
+		// at most once is demanded when nothing on the chain was (re-)established after the task was added, or
+		// when the only new links are this collector's own first subscription/connection (a fresh leaf);
+		// a re-established link (reconnect) or a new link further up may legitimately replay the latest task
+		if c.k > 0 && (reest || !c.ownOnly) {
 			c.le1 = false
 		}
 		return c
@@ -473,7 +481,7 @@ func judge(rec *Rec) *verdict {
 			for _, c := range cnames {
 				cv := coverage(t, rec.Chains[c])
 				cl := "connected-throughout"
-				if cv.k == 1 {
+				if cv.k >= 1 {
 					cl = "subscribed-after-AddTask-returned:" + strings.SplitN(cv.lateLink, ":", 2)[0]
 					if cv.overlapAdd {
 						cl = "subscribe-overlaps-AddTask:" + strings.SplitN(cv.lateLink, ":", 2)[0]
